@@ -419,10 +419,12 @@ func (tc *TypeChecker) ValidateTypeReference(t Type) error {
 func (tc *TypeChecker) ValidateObjectAgainstTypeDef(obj map[string]interface{}, typeDef TypeDef) error {
 	// Check required fields (fields with defaults are not required)
 	for _, field := range typeDef.Fields {
-		if field.Required && field.Default == nil {
+		if field.Required {
 			// Required means present and non-null: CheckType accepts null for
-			// every type, so an explicit null must be refused here.
-			if value, exists := obj[field.Name]; !exists || value == nil {
+			// every type, so an explicit null must be refused here - also when
+			// the field has a default, which fills in absent fields only.
+			value, exists := obj[field.Name]
+			if (exists && value == nil) || (!exists && field.Default == nil) {
 				return fmt.Errorf("missing required field: %s", field.Name)
 			}
 		}
